@@ -494,6 +494,29 @@ def _enclosing_missing_atom(x, a, gb) -> bool:
     return mo is not None and _tf(mo["t"], db)
 
 
+def selection_liveness(ctx: Ctx, pid: str):
+    """F49 (C07, liveness of merged transactions): the groups that are built are the MAXIMAL elements of the closure, and two
+    callers of one nonexclusive method are kept apart by the closure unless the pair itself is required.  A design whose only
+    complete group has to contain two such callers (A writes c1 and calls N, M reads c1 and writes c2, R reads c2 and calls N,
+    N nonexclusive) therefore has no group at all: every incomplete group is skipped and A, M, R never run although nothing
+    conflicts.  Building the inclusion-MINIMAL complete groups instead (weakly independent callers allowed in the closure)
+    would serve both this design and the callers of a nonexclusive method with a condition(); the present structure cannot."""
+    simultaneous_groups(ctx, pid)
+    rule = f"{pid}.simultaneous-selection"
+    fn = _fn(ctx, MANAGER, "TransactionManager._simultaneous", rule)
+    weak = ctx.__dict__.get("_weak_independents")
+    maximal = False
+    for x in fn.exs:
+        for t in list(x.vardefs.values()):
+            for s in subterms(t):
+                mf = pmatch("set(filter(Q_p, Q_s))", s) or pmatch("filter(Q_p, Q_s)", s)
+                lt = _lam(x, mf["p"]) if mf else None
+                if lt is not None and lt[0] == 1 and pmatch("not any(Q_g)", lt[1]) is not None and "issubset" in tstr(lt[1]):
+                    maximal = True
+    ctx.check(not (weak is not None and maximal), rule, fn.site, "_simultaneous.selection", found="maximal groups of a closure that keeps weakly independent callers apart" if maximal else "no maximal-group selection",
+              required="a design whose only complete group joins two callers of one nonexclusive method still gets that group (select the minimal complete groups)")
+
+
 def group_complete(ctx: Ctx, pid: str):
     """F48 (C13 itself): a merged transaction that runs a body runs each of its simultaneous partners (one of a family of
     alternatives) as well - the group test ranges over EVERY partner of every body the group runs, not only over the body a
